@@ -1164,6 +1164,11 @@ class Engine:
                 done.add(fname)
                 flv = self.member_lv(st, this, fname, self.field_decl_class(c['anyInit']['id']) if c['anyInit']['id'] in self.ast.by_id else None) if isinstance(this, ObjLV) else LocalLV(this.var, this.path + (fname,))
                 e = c['inner'][0]
+                if e.get('kind') == 'CXXDefaultInitExpr' and not e.get('inner'):
+                    fd = self.ast.by_id.get(c['anyInit']['id'], {})
+                    init = [x for x in fd.get('inner', []) if 'kind' in x and x['kind'] != 'FullComment']
+                    if not init: raise Unsupported('default member initialiser of %s not in the AST' % fname)
+                    e = init[0]
                 if isinstance(flv, ObjLV):
                     src = self.ev(e, st, fr2)
                     self.init_object_from(st, flv, src, e, fr2)
